@@ -7,18 +7,24 @@ Run-level statements for any number of dispatchers sharing one pool and one CU-f
 in the pool are *exactly* the placed / in-flight work-groups of the dispatchers). -/
 namespace C09
 
-/-- **No Go panic is reachable.** Pool initially without residents and satisfying the resource
-    invariant; every launched kernel well formed with work-groups of at most 1024 work-items (16
-    wavefronts: the dispatcher's 17-entry latency table). Then along **every** op sequence — any
-    number of dispatchers, overlapping launches, completions in any order, batched across
-    dispatchers, duplicated or foreign ids, any back-pressure — the model never faults:
-    `panic("reserving a work-group twice")`, `panic("work-group not found")` and the latency-table
-    index panic are all unreachable. -/
+/-- **No Go panic of the bookkeeping is reachable; the only reachable panic is the deliberate rejection
+    of an oversize kernel.** Pool initially without residents and satisfying the resource invariant;
+    every launched kernel well formed with work-groups of at most 1024 work-items (16 wavefronts: the
+    dispatcher's 17-entry latency table). Then along **every** op sequence — any number of dispatchers,
+    overlapping launches, completions in any order, batched across dispatchers, duplicated or foreign
+    ids, any back-pressure — `panic("reserving a work-group twice")`, `panic("work-group not found")`
+    and the latency-table index panic are unreachable: the state carries no fault, or the fault
+    "oversize" raised by `StartDispatching` (repair 91eb1bb3) for a launch whose first work-group fits
+    no CU; and if every work-group of every launched kernel fits some CU (`KernFits`) no fault at all. -/
 theorem no_go_panic_reachable (caps : List (List Nat)) (cfg : Cfg) (nd : Nat) (pool : List CU) (ops : List Op)
     (hempty : ∀ cu ∈ pool, cu.resident = []) (hp : PoolInv caps pool)
     (hops : ∀ k, Op.launch k ∈ ops → KernOK k ∧ k.wx ≤ 1024) :
-    (run (mkCP cfg nd pool) ops).fault = none :=
-  (safe_run caps cfg nd pool ops hempty hp hops).nf
+    ((run (mkCP cfg nd pool) ops).fault = none ∨ (run (mkCP cfg nd pool) ops).fault = some "oversize") ∧
+    ((∀ k, Op.launch k ∈ ops → KernFits caps (pool.map CU.shapes) k) →
+      (run (mkCP cfg nd pool) ops).fault = none) :=
+  ⟨(safe_run caps cfg nd pool ops hempty hp hops).nf,
+   fun hfit => run_fits_nofault caps cfg nd pool hempty hp ops
+     (fun k hk => ⟨(hops k hk).1, (hops k hk).2, hfit k hk⟩)⟩
 
 example : (∀ k, Op.launch k ∈ demoOps → KernOK k ∧ k.wx ≤ 1024) ∧
     (run (mkCP demoCfg 8 demoPool) demoOps).fault = none := by
@@ -33,7 +39,8 @@ example : (∀ k, Op.launch k ∈ demoOps → KernOK k ∧ k.wx ≤ 1024) ∧
 example : (run (mkCP demoCfg 1 [(mkCU [40] none [none] none).getD default])
     [.launch ⟨0, 1088, 1088, 0, 0, 0⟩, .tick, .tick]).fault = some "bounds" := by decide
 
-/-- **Resident ⇔ held.** In every reachable state (same hypotheses): a work-group is resident on CU
+/-- **Resident ⇔ held.** In every reachable state (same hypotheses; also a state in which an oversize
+    launch was rejected): a work-group is resident on CU
     `c` iff some dispatcher holds it for that CU — as its placed-but-unsent work-group or as an
     in-flight `MapWGReq` — and then it is resident with exactly the wavefront locations the
     `MapWGReq` carries; every key is held by one holder only. So the pool never leaks a reservation
@@ -46,9 +53,9 @@ theorem residents_are_exactly_the_held_groups (caps : List (List Nat)) (cfg : Cf
     (∀ j dl, Holds cp j dl → ∃ d, (dl.key, d, dl.locs) ∈ (cp.pool.getD dl.cu default).resident) ∧
     (∀ j j' dl dl', Holds cp j dl → Holds cp j' dl' → dl.key = dl'.key → j = j' ∧ dl = dl') := by
   intro cp
-  have hs := safe_run caps cfg nd pool ops hempty hp hops
-  have ht := ti_run cfg nd pool ops hempty
-  refine ⟨ht.tied hs.nf, ?_, hs.hi.uniq⟩
+  have ha := acc_run caps cfg nd pool ops hempty hp hops
+  have hs := ha.safe
+  refine ⟨ha.tied, ?_, hs.hi.uniq⟩
   intro j dl hh
   obtain ⟨d, _, hd⟩ := hs.hi.res j dl hh
   exact ⟨d, hd⟩
@@ -87,7 +94,7 @@ theorem inflight_groups_disjoint (caps : List (List Nat)) (cfg : Cfg) (nd : Nat)
         simp only [List.getD_eq_getElem?_getD]
         rw [List.getElem?_eq_none (by omega)]; rfl
       rw [hg] at hd; cases hd
-  have hpinv := hs.inv.pool (by rw [hs.nf]; intro x; cases x)
+  have hpinv := hs.inv.pool hs.notTwice
   have hg : cu = (run (mkCP cfg nd pool) ops).pool[dl.cu] := by
     simp [cu, List.getD_eq_getElem?_getD, hclt]
   have hinv : Inv (caps.getD dl.cu []) cu := by rw [hg]; exact hpinv.2 dl.cu hclt
@@ -165,6 +172,59 @@ example : ∃ N, ∀ k, Op.launch k ∈ demoOps →
   intro ids rest h
   have : demoEnd.cuIn = [] := by decide
   rw [this] at h; cases h
+
+/-- **Every accepted launch is answered; a launch that cannot be placed is rejected loudly** — the
+    liveness theorem *without* the fit hypothesis. Pool initially without residents and satisfying the
+    resource invariant, at least one dispatcher; a finite op sequence `ops0` containing all launches —
+    distinct ids, well formed, at most 1024 work-items per work-group, **nothing assumed about their
+    resource demands** — followed by any infinite launch-free schedule that is fair. Then after finitely
+    many moves EITHER the state carries `fault = some "oversize"` (the Go panic "cannot dispatch
+    kernel": the tick that took a launch whose first work-group fits no CU of the pool rejected it,
+    `oversize_launch_is_rejected_at_once`) OR every launch has exactly one `LaunchKernelRsp` and its
+    whole grid `0 … NumWG−1` mapped exactly once. There is no third outcome: the silent wait of the
+    pinned code (`oversize_group_waits_forever_before_fix`) is gone. Proof: every kernel a dispatcher is
+    working on passed the check of its first work-group, the first work-group is the largest and `Fits`
+    is monotone in the number of wavefronts, so all its work-groups fit (`Acc.kd`); a queued launch with
+    an idle dispatcher is taken or rejected in the next tick. -/
+theorem every_accepted_launch_is_answered (caps : List (List Nat)) (cfg : Cfg) (nd : Nat)
+    (pool : List CU) (ops0 : List Op) (sched : Nat → Op) (hnd : 0 < nd) (hids : (launchIds ops0).Nodup)
+    (hempty : ∀ cu ∈ pool, cu.resident = []) (hp : PoolInv caps pool)
+    (hops : ∀ k, .launch k ∈ ops0 → KernOK k ∧ k.wx ≤ 1024)
+    (hnl : ∀ n k, sched n ≠ .launch k)
+    (hfair : ∀ n, ∃ m, n ≤ m ∧ sched m = .tick ∧
+      EnvReady (run (mkCP cfg nd pool) (ops0 ++ prefixOf sched m))) :
+    ∃ N, (run (mkCP cfg nd pool) (ops0 ++ prefixOf sched N)).fault = some "oversize" ∨
+      ∀ k, Op.launch k ∈ ops0 →
+        rspCount (run (mkCP cfg nd pool) (ops0 ++ prefixOf sched N)).log k.id = 1 ∧
+        mapsOf (run (mkCP cfg nd pool) (ops0 ++ prefixOf sched N)).log k.id = List.range k.numWG := by
+  obtain ⟨N, hN⟩ := fair_run_answers_accepted caps cfg nd pool ops0 sched hnd hempty hp hops hnl hfair
+  refine ⟨N, ?_⟩
+  rcases hN with hN | hN
+  · exact Or.inl hN
+  · right
+    intro k hk
+    have hids' : (launchIds (ops0 ++ prefixOf sched N)).Nodup := by
+      rw [launchIds_prefix ops0 sched hnl N]; exact hids
+    have hk' : Op.launch k ∈ ops0 ++ prefixOf sched N := List.mem_append_left _ hk
+    have h1 := all_answered_rsp cfg nd pool _ hids' hN k hk'
+    exact ⟨h1, (rsp_implies_whole_grid cfg nd pool _ hids' k hk' (by omega)).1⟩
+
+/-- both outcomes occur: the demo scenario followed by ticks for ever is answered (previous example, no
+    fault: `no_go_panic_reachable`), the 200-SGPR kernel followed by ticks for ever is rejected in its
+    first tick and stays rejected -/
+example : (∀ k, Op.launch k ∈ tooBigOps → KernOK k ∧ k.wx ≤ 1024) ∧
+    ∀ n, (run (mkCP demoCfg 2 demoPool) (tooBigOps ++ prefixOf (fun _ => Op.tick) n)).fault = some "oversize" := by
+  constructor
+  · intro k hk
+    have : k = ⟨0, 64, 64, 200, 4, 256⟩ := by simpa [tooBigOps] using hk
+    subst this; exact ⟨⟨by decide, by decide⟩, by decide⟩
+  · intro n
+    induction n with
+    | zero => decide
+    | succ n ih =>
+      rw [run_prefix_succ]
+      show (cpTick _).1.fault = some "oversize"
+      rw [cpTick_faulted _ (by rw [ih]; rfl)]; exact ih
 
 /-! ## fairness between dispatchers: eventual, not first-come-first-served -/
 
